@@ -66,6 +66,15 @@ PROPS = {
     "C14": {"components": [{"name": "pool", "driver": "pool", "streams": ["p"]}], "rule": POOL_RULE, "trusted_base": TB_POOL, "modelled": POOL_MODELLED, "assumptions": ["'promptly' (ErrDial without delay) is measured by the harness deadline, not proved"]},
     "C15": {"components": [{"name": "pool", "driver": "pool", "streams": ["p"]}], "rule": POOL_RULE, "trusted_base": TB_POOL, "modelled": POOL_MODELLED, "assumptions": ["reclamation after KeepAlive/IdleConnTimeout is observed in the correspondence phases (idle medium / idle long), not proved as a liveness theorem",
         "the window between getConn returning a connection and the call registering on it is not gate-bounded (DESIGN.md D12): the spares-busy theorem is about connections in active lists"]},
+    "C01": {"components": [{"name": "conn", "driver": "conn", "streams": ["k"]}, {"name": "server", "driver": "server", "streams": ["s"]},
+                           {"name": "framing", "driver": "frame", "streams": ["f"]}, {"name": "e2e", "driver": "e2e", "streams": ["e"]}],
+            "rule": CONN_RULE + " | " + SRV_RULE + " | framing: message lists (lengths around 0,1,127/128,16383/16384, 64K, buffer size) written through the real socket.Messages writer and read back through the real reader over a link that fragments, batches and truncates at PRNG-chosen points, compared byte for byte with Model/Framing.lean | " + E2E_RULE,
+            "trusted_base": TB_COMMON, "modelled": CONN_MODELLED + " | " + SRV_MODELLED + " | " + E2E_MODELLED,
+            "assumptions": ["linking hypothesis PeerAnswersOwn (Props/C01): the peer answers a sequence number with the reply of the request written under it - proved of S for the library's own server, assumed of the composition", "body codecs (json, bytes, code, pb, msgp, gencode) are outside the model: end-to-end payload self-description checks them"]},
+    "C20": {"components": [{"name": "conn", "driver": "conn", "streams": ["k"]}, {"name": "pool", "driver": "pool", "streams": ["p"]}, {"name": "e2e", "driver": "e2e", "streams": ["e"]}],
+            "rule": CONN_RULE + " | " + POOL_RULE + " | " + E2E_RULE + "; after teardown in either order: goroutine profile back to baseline, counting sockets all closed, Listen returned, second Close without panic",
+            "trusted_base": TB_POOL, "modelled": CONN_MODELLED + " | " + POOL_MODELLED + " | goroutine exit, socket closure and Listen's return are runtime facts measured by the harness (goroutine profile, counting sockets), not modelled",
+            "assumptions": ["'terminate' is a quiescence theorem (no model thread has work left) plus measured goroutine baselines with a 3 s deadline", "poll-mode Server.Close with an open connection: see known finding D17 (C10)"]},
     "C04": {"components": [{"name": "server", "driver": "server", "streams": ["s"]}, {"name": "e2e", "driver": "e2e", "streams": ["e"]}],
             "rule": SRV_RULE + " | " + E2E_RULE, "trusted_base": TB_COMMON, "modelled": SRV_MODELLED + " | " + E2E_MODELLED,
             "assumptions": ["the peer uses each sequence number once per connection (guaranteed by the client half: K's pending-table invariant)", "Transport/Client never retry: checked by the end-to-end execution counts, not a theorem"]},
@@ -102,6 +111,14 @@ MANIFEST_TEXT = {
         "text": "Lean 4 theorems over K: cancelling an un-returned context call is an always-enabled step that returns the context's error, keeps the call registered and changes no other call; a late response changes only the call registered under its sequence number; a signalled call is never touched again; the reply goes into the caller's buffer iff its capacity suffices. Correspondence under scripted orders of cancel vs response, buffers of capacity len-1/len/len+1.",
         "note": KERNEL_NOTE + "'As soon as' is a one-step enabledness lemma plus measured deadlines.",
         "technique": "Lean 4 proof (step/frame lemmas) + state correspondence + buffer-bounds monitor"},
+    "C01": {
+        "text": "Lean 4 theorems: (K) over the client automaton, for every interleaving and every frame sequence, what is decoded into a call's Reply is the body of a received frame bearing that call's own sequence number, sequence numbers are never shared, and hence under a peer that answers each number with its own request's reply every completed call holds its own reply; (S) the server answers only sequence numbers it read and with the reply computed for that request; (W) sequence number and payload survive every header encoder; (F) for every fragmentation, batching or truncation of the byte stream the messages read are (a prefix of) the messages written. Correspondence: K, S and the framing model against the real code; end-to-end runs with self-describing payloads across all configurations.",
+        "note": KERNEL_NOTE + "The product K x F x S is not built: the halves are linked by the explicit hypothesis PeerAnswersOwn. Body codecs are exercised end to end only.",
+        "technique": "Lean 4 proof (provenance invariant, framing theorem, wire round-trip) + state/byte correspondence + end-to-end self-describing payloads"},
+    "C20": {
+        "text": "Lean 4 theorems: after Conn.Close, in every quiescent state of K with no gate held, the reader has run its teardown, every queue and registry is empty and every call is completed; a second Close reports ErrShutdown and changes nothing; Transport.Close closes every pooled connection, empties the pool, stops housekeeping and is idempotent (over every event sequence of P); a server connection whose teardown is over has nothing left to dispatch and no handler running. The harness measures what the runtime owns: goroutine profile back to baseline, counting sockets closed, Listen returned, in both teardown orders.",
+        "note": KERNEL_NOTE + "Goroutine exit and socket closure are measured, not proved. Poll-mode Server.Close with an open connection is known finding D17 (listed under C10).",
+        "technique": "Lean 4 proof (quiescence + release theorems over K, P, S) + state correspondence + goroutine/socket baselines end to end"},
     "C04": {
         "text": "Lean 4 theorems over the server-connection automaton S (every interleaving of reader, decode worker, execution workers, handlers, teardown; every request mix incl. all 256 upgrade bytes and junk; every disconnect point): no request is executed or answered twice, no handler or response is phantom, and at the end of the connection every request read was executed exactly once if it had to be and answered exactly once. S is compared state-by-state with the real ServeCodec under scripted schedules; end-to-end runs count executions per call across all configurations and through Transport and Client.",
         "note": KERNEL_NOTE + "Unique sequence numbers per connection are assumed of the peer (the client half proves it of the library's own client). 'Never retries' for Transport/Client is measured end to end.",
